@@ -12,8 +12,9 @@ SPEC = os.path.join(ROOT, "spec")
 # VERIF_HARNESS_DIR lets a developer work on a private copy of the harness crate; registered commands never set it
 HARNESS = os.environ.get("VERIF_HARNESS_DIR") or os.path.join(ROOT, "harness")
 VH = os.path.join(HARNESS, "target", "release", "vharness")
-EVID = os.path.join(ROOT, "evidence")
-REPLAYS = os.path.join(ROOT, "out", "replays")
+# (overridable so that runs against a seeded change - bin/try_mutant - do not overwrite the registered evidence)
+EVID = os.environ.get("VERIF_EVIDENCE_DIR") or os.path.join(ROOT, "evidence")
+REPLAYS = os.environ.get("VERIF_REPLAY_DIR") or os.path.join(ROOT, "out", "replays")
 NCPU = os.cpu_count() or 8
 
 
